@@ -8,7 +8,7 @@ from props.tapecommon import CaseDir
 
 GEN_FILES = ["GenDisk"]
 RULE = ("one create or add invocation whose sources interleave files (sizes from 0 to larger than a side; batches longer than a catalogue) and --eos markers in every "
-        "position, on a fresh image or on one partially filled by a previous invocation; both flavours. Oracle on the report and on the image decoded by the extracted Spec: "
+        "position, on a fresh image or on one partially filled by a previous invocation, catalogue names possibly given twice (other directory, other letter case, 'x.bas' and 'x.bas,a'); both flavours. Oracle on the report and on the image decoded by the extracted Spec: "
         "files are stored in the order given; --eos moves to the next side; a file refused on side j ('too big') is retried on side j+1 only, never split nor stored twice; "
         "once the fourth side is passed the remaining sources are dropped, the image is still written and every side is a valid file system; the report's section for side i "
         "lists exactly the files the image gained on side i. signature = (flavour, fresh/partial, number of sides reached, flags {eos, overflow, catalog-overflow, dropped, "
@@ -37,18 +37,41 @@ def gen_batch(rng, prefix, allow_many=True):
     return items
 
 
+def add_duplicates(rng, case):
+    """the same catalogue NAME.EXT given again: from another directory, in another letter case, or as 'x.bas' / 'x.bas,a' - in the batch or already on the image"""
+    pool = [s["arg"] for s in (case["pre"] or []) + case["batch"] if "arg" in s and "/" not in s["arg"]]
+    if not pool:
+        return
+    for _ in range(rng.choice([1, 1, 2])):
+        a = rng.choice(pool)
+        how = rng.random()
+        d = "dup%d/" % rng.randrange(3)
+        if a.endswith(".bas") and how < 0.4:
+            b = d + a + ",a"
+        elif how < 0.7:
+            b = d + a.upper()
+        else:
+            b = d + a
+        case["batch"].insert(rng.randint(0, len(case["batch"])), {"arg": b, "content": gen_dcontent(rng, rng.choice([0, 1, 300, 2041, 61200]))})
+
+
 def gen_cases(rng, tier):
     n = scale(tier, 32, 800)
     cases = []
     for _ in range(n):
         pre = gen_batch(rng, "p", allow_many=False) if rng.random() < 0.4 else None
         cases.append({"is_fd": rng.random() < 0.5, "pre": pre, "batch": gen_batch(rng, "b"), "verbose": rng.random() < 0.3})
+        if rng.random() < 0.25:
+            add_duplicates(rng, cases[-1])
     huge = {"arg": "bhuge.bin", "content": {"pat": "41", "len": FULL + 2040}}
     for is_fd in (True, False):
         cases.append({"is_fd": is_fd, "pre": None, "verbose": False, "batch": [{"arg": "ba.dat", "content": {"hex": "41"}}, huge, {"eos": "--eos"}, {"arg": "bb.dat", "content": {"hex": "42"}}]})
         cases.append({"is_fd": is_fd, "pre": [{"arg": "pa.dat", "content": {"hex": "41"}}], "verbose": True,
                       "batch": [{"arg": "ba.dat", "content": {"hex": "41"}}, {"eos": "--eos"}, {"eos": "--eos"}, {"eos": "--eos"}, huge, {"eos": "--EOS"}, {"arg": "bb.dat", "content": {"hex": "42"}}]})
-    return cases, {"random": n, "fixed": 4}
+    for is_fd in (True, False):
+        cases.append({"is_fd": is_fd, "pre": [{"arg": "a.bas", "content": {"hex": "41"}}], "verbose": is_fd,
+                      "batch": [{"arg": "new/a.bas", "content": {"hex": "4242"}}, {"arg": "c.dat", "content": {"hex": "43"}}, {"arg": "new/C.DAT", "content": {"hex": "4444"}}]})
+    return cases, {"random": n, "fixed": 6}
 
 
 def sections(text):
